@@ -666,7 +666,10 @@ def _parse_datetime_iso_match(date_match, tz=None):
         # datetime can handle.
         usecond = min(999999, int(round(float(usecond) * 1e6)))
 
-    return datetime(year, month, day, hour, minute, second, usecond, tz)
+    try:
+        return datetime(year, month, day, hour, minute, second, usecond, tz)
+    except ValueError as e:
+        raise ValidationError(date_match.group(0), "%%r: %s" % (e,))
 
 
 _dt_sec = lambda cls, val: \
